@@ -115,6 +115,57 @@ def is_hermitian_kind(hkind):
     return hkind in ("herm", "realsym", "diag", "tridiag", "blockdiag")
 
 
+def relayout(a, lay):
+    """the same values in another memory layout: 0/1 C-contiguous, 2 Fortran-contiguous copy, 3 a transposed view
+    (of a C-contiguous transpose), 4 a strided view into a larger buffer."""
+    if a.ndim < 2 or lay in (0, 1):
+        return a
+    if lay == 2:
+        return np.asfortranarray(a)
+    if lay == 3:
+        perm = list(range(a.ndim))[::-1]
+        return np.ascontiguousarray(a.transpose(perm)).transpose(perm)
+    big = np.zeros(tuple(2 * d for d in a.shape), dtype=a.dtype)
+    view = big[tuple(slice(None, None, 2) for _ in a.shape)]
+    view[...] = a
+    return view
+
+
+# how the Hamiltonian of one step of a history derives from the caller's matrix `hb` (an object the caller keeps)
+H_VARIANTS = ["same", "copy", "T", "F", "Tcopy", "conj", "neg", "negT", "strided", "inplace"]
+
+
+def variant_of(hb, var):
+    """the matrix handed to the propagator in a step of a history; `inplace` changes the caller's own
+    array between two calls and hands over the very same object."""
+    if var == "same":
+        return hb
+    if var == "copy":
+        return hb.copy()
+    if var == "T":
+        return hb.T                              # the usual lazy transpose: a Fortran-ordered view
+    if var == "F":
+        return np.asfortranarray(hb)
+    if var == "Tcopy":
+        return np.ascontiguousarray(hb.T)
+    if var == "conj":
+        return hb.conj()
+    if var == "neg":
+        return -hb
+    if var == "negT":
+        return (-hb).T
+    if var == "strided":
+        return relayout(hb, 4)
+    if var == "inplace":
+        hb *= 0.5
+        if hb.shape[0] > 1:
+            hb[0, 1], hb[1, 0] = hb[1, 0].copy(), hb[0, 1].copy()
+            hb[0, 1] = np.conj(hb[0, 1])
+            hb[1, 0] = np.conj(hb[1, 0])         # (swap + conjugate keeps a Hermitian matrix Hermitian)
+        return hb
+    raise ValueError(var)
+
+
 # ---------------------------------------------------------------------------------------
 # independent reference
 # ---------------------------------------------------------------------------------------
@@ -335,7 +386,13 @@ class C20(Prop):
     rule = ("time_evolve cases: the full grid 9 modes x 2 directions x dimensions {1,2,3,4,5,8,12} x psi of order 1/2/3 x "
             "t in {0, 0.01, 0.7} (thorough: all dimensions 1..12, t also 1e-4, 0.25, 1.0, 3 draws per cell) with H Hermitian / "
             "non-Hermitian (thorough also real symmetric, diagonal, strictly upper triangular), |H|_2 in {0.5,1.5,3}/max(t,1), "
-            "psi complex (about 1 in 8 real or integer dtype); fast_exp_action cases: every accepted mode string, "
+            "psi complex (about 1 in 8 real or integer dtype), psi of order >= 2 and H in C order, Fortran order or as a transposed view "
+            "(same values); history cases (20 per mode, thorough 80): 2..5 time_evolve calls in one process on one matrix object the "
+            "caller keeps, from call to call usually one thing changes: H handed over as the same object / copy / `.T` view / Fortran copy / "
+            "C-ordered transpose / conjugate / negative / negative transpose / strided view / the same object modified in place by the caller, "
+            "or the duration (t, 2t, -t, 0), the direction, the mode, psi (same object / fresh / the previous result); every call is "
+            "judged on its own against the reference for the arrays it was given, a chained opposite-direction call must return to the start; "
+            "dimension <= 8 (EIGSH histories: <= 3); fast_exp_action cases: every accepted mode string, "
             "unknown strings; malformed cases: non-square H or size mismatch (both sides must reject). "
             "non-trivial = dimension >= 2 and t > 0; distinct by case content. "
             f"Oracle tolerances (relative to max(|reference|,|psi|)): {TOL_EXP:g} for expm/expm_multiply/sparse/eigsh(dim<4), "
@@ -357,7 +414,9 @@ class C20(Prop):
               "C20_zero_duration_id, C20_hermitian_norm); the contracts are consistent (C20_contracts_satisfiable)"),
         ("V", "the contracts themselves (accuracy of each SciPy kernel) are validated per case against an independent reference "
               "(eigh for Hermitian H, numpy scaling-and-squaring Taylor otherwise) with the stated tolerances; they FAIL for eigsh in dimension >= 4, "
-              "for solve_ivp at t = 0 and for solve_ivp with real y0: the known-finding classes"),
+              "for solve_ivp at t = 0 and for solve_ivp with real y0: the known-finding classes. The model is stateless (a call does not "
+              "depend on earlier calls); this is validated by the history cases: every call of a history is tied to its own model run "
+              "and judged by the reference on its own"),
     ]
     trusted_base = [
         "kernel contracts of Dispatch.v (Section Contracts): scipy.linalg.expm, scipy.sparse.linalg.expm_multiply / expm / eigsh and "
@@ -399,6 +458,11 @@ class C20(Prop):
                                 cases.append({"kind": "te", "mode": mode, "forward": forward, "n": n, "order": order, "t": t,
                                               "hkind": hk, "hnorm": rng.choice([0.5, 1.5, 3.0]), "pdtype": pdtype,
                                               "seed": rng.randrange(10 ** 6)})
+        # histories: several propagator calls in one process on one matrix object the caller keeps using
+        nh = ctx.scale(20, 80) * (budget_scale if stream != "main" else 1)
+        for rep in range(nh):
+            for mode in MODES:
+                cases.append(self._gen_history(rng, mode, dims))
         # fast_exp_action directly
         mds = ["fastest", "expm", "eigsh", "chebyshev", "sparse", "none", "bogus", "RK45", "EXPM", "", "Fastest"]
         for md in mds:
@@ -414,7 +478,40 @@ class C20(Prop):
                               "t": rng.choice([0.05, 0.3]), "seed": rng.randrange(10 ** 6)})   # t > 0: an empty time span makes solve_ivp return before it looks at H
         return cases
 
+    @staticmethod
+    def _gen_history(rng, mode, dims):
+        """2..5 calls; from one call to the next usually ONE thing changes (the matrix variant, else the duration, the
+        direction, the mode or psi), so that every pair `same arguments but for x` occurs."""
+        n = rng.choice([d for d in dims if d <= 8])
+        if mode == "EIGSH":
+            n = rng.choice([1, 2, 3])                 # eigsh proper (dimension >= 4) is the known finding
+        t0 = rng.choice([0.01, 0.3, 0.7, -0.4])
+        tpool = [t0, 2 * t0, -t0, 0.0]
+        step = {"mode": mode, "forward": rng.random() < 0.5, "t": t0, "h": rng.choice(["same", "copy", "Tcopy", "T", "F"]), "psi": "new"}
+        steps = [dict(step)]
+        for _ in range(rng.randrange(1, 5)):
+            step = dict(step)
+            r = rng.random()
+            if r < 0.55:
+                step["h"] = rng.choice(H_VARIANTS)
+            elif r < 0.65:
+                step["t"] = rng.choice(tpool)
+            elif r < 0.75:
+                step["forward"] = not step["forward"]
+            elif r < 0.85:
+                step["mode"] = rng.choice([m for m in MODES if m != "EIGSH" or n <= 3])
+            else:
+                step["h"] = rng.choice(H_VARIANTS)
+                step["t"] = rng.choice(tpool)
+                step["forward"] = rng.random() < 0.5
+            step["psi"] = rng.choice(["same", "same", "new", "prev"])
+            steps.append(dict(step))
+        return {"kind": "hist", "n": n, "order": rng.choice([1, 2, 3]), "hkind": rng.choice(["herm", "nonherm"]) if rng.random() < 0.6 else rng.choice(STRUCTURED),
+                "hnorm": rng.choice([0.5, 1.5, 3.0]), "pdtype": "complex", "steps": steps, "seed": rng.randrange(10 ** 6)}
+
     def nontrivial(self, case):
+        if case["kind"] == "hist":
+            return case["n"] >= 2 and any(st["t"] != 0 for st in case["steps"])
         if case["kind"] == "te":
             return case["n"] >= 2 and case["t"] > 0
         if case["kind"] == "fea":
@@ -426,7 +523,15 @@ class C20(Prop):
         c = Counter()
         for x in cases:
             c["kind:" + x["kind"]] += 1
+            if x["kind"] == "hist":
+                c["hist:steps=%d" % len(x["steps"])] += 1
+                c["hist:H:" + x["hkind"]] += 1
+                for st in x["steps"]:
+                    c["hist:step-mode:" + st["mode"]] += 1
+                    c["hist:step-H:" + st["h"]] += 1
+                    c["hist:step-psi:" + st["psi"]] += 1
             if x["kind"] == "te":
+                c["Hlayout:" + ["C", "C", "F", "transposed-view"][(x["seed"] // 4) % 4]] += 1
                 c["mode:" + x["mode"]] += 1
                 c["n:%d" % x["n"]] += 1
                 c["order:%d" % x["order"]] += 1
@@ -445,12 +550,16 @@ class C20(Prop):
             psi = build_psi("complex", case["shape"], rs)
             return h, psi, case["shape"]
         n = case["n"]
-        t = case["t"]
+        t = max(abs(st["t"]) for st in case["steps"]) if case["kind"] == "hist" else case["t"]
         h = build_h(case["hkind"], n, rs, case["hnorm"] / max(abs(t), 1.0))
         if case["kind"] == "fea":
             return h, build_psi("complex", [n], rs), [n]
         shape = shapes_of(n, case["order"], rs)
         psi = build_psi(case["pdtype"], shape, rs)
+        if case["kind"] == "hist":
+            return h, psi, shape
+        # memory layout of H (same values): effective Hamiltonians are often `.T` views or Fortran-ordered
+        h = relayout(h, (case["seed"] // 4) % 4)
         # memory layout: tensors handed to the propagator are often transposed views (lazy leg
         # permutations), so half of the tensors of order >= 2 are non-C-contiguous (same values)
         if len(shape) >= 2:
@@ -503,6 +612,59 @@ class C20(Prop):
             ob["rt_exception"] = f"{type(e).__name__}: {str(e)[:120]}"
         return ob
 
+    def _hist(self, rec, case):
+        """a history: the calls of case["steps"] one after the other in this process. Every call is judged on its own
+        against the reference for the arrays it was actually given (snapshots taken at call time)."""
+        from pytreenet.time_evolution.time_evolution import time_evolve, TimeEvoMode
+        hb, psi_b, shape = self._inputs(case)
+        rs = np.random.RandomState(case["seed"] + 1)
+        herm_kind = is_hermitian_kind(case["hkind"])
+        ob = {"shape_in": list(shape), "hrows": int(hb.shape[0]), "hcols": int(hb.shape[1]), "exception": None, "steps": [], "calls": []}
+        prev_res = None
+        prev = None            # (h snapshot, psi snapshot, t, forward) of the previous step
+        psi_cur = psi_b
+        for k, st in enumerate(case["steps"]):
+            h = variant_of(hb, st["h"])
+            if st["psi"] == "new":
+                psi_cur = build_psi(case["pdtype"], shape, rs)
+            elif st["psi"] == "prev" and prev_res is not None:
+                psi_cur = prev_res
+            psi = psi_cur
+            h0, psi0 = np.array(h, copy=True, order="C"), np.array(psi, copy=True, order="C")
+            t, fw = st["t"], st["forward"]
+            so = {"exception": None, "chained": bool(st["psi"] == "prev" and prev_res is not None)}
+            ob["steps"].append(so)
+            res = None
+            try:
+                res = rec.record(lambda: time_evolve(psi, h, t, forward=fw, mode=TimeEvoMode[st["mode"]]))
+            except Exception as e:  # noqa
+                so["exception"] = f"{type(e).__name__}: {str(e)[:120]}"
+                so["exc_type"] = type(e).__name__
+            so["calls"] = digest_calls(rec.calls, h0, t, psi0.flatten())
+            hermitian = herm_kind or case["n"] == 1 and np.all(np.imag(h0) == 0)
+            so["hermitian"] = bool(hermitian)
+            so["inputs_unchanged"] = bool(np.array_equal(h, h0) and np.array_equal(psi, psi0))
+            prev_res = None
+            if res is None:
+                prev = None
+                continue
+            res = np.asarray(res)
+            so["shape"] = list(res.shape)
+            if res.shape != psi0.shape:
+                prev = None
+                continue
+            ref = reference(h0, t, fw, psi0.flatten(), hermitian).reshape(psi0.shape)
+            scale = max(np.linalg.norm(ref), np.linalg.norm(psi0))
+            so["err"] = float(np.linalg.norm(res - ref) / scale)
+            so["norm_dev"] = float(abs(np.linalg.norm(res) - np.linalg.norm(psi0)) / np.linalg.norm(psi0))
+            if so["chained"] and prev is not None and prev[2] == t and prev[3] != fw and np.array_equal(prev[0], h0):
+                # the other direction with the same matrix and duration on the previous result: back at the start
+                so["rt_err"] = float(np.linalg.norm(res - prev[1]) / max(np.linalg.norm(prev[1]), np.linalg.norm(psi0)))
+                so["rt_mode"] = case["steps"][k - 1]["mode"]
+            prev = (h0, psi0, t, fw)
+            prev_res = res
+        return ob
+
     def _fea(self, rec, case):
         from pytreenet.util.std_utils import fast_exp_action
         h, vec, _ = self._inputs(case)
@@ -538,7 +700,7 @@ class C20(Prop):
         try:
             for c in cases:
                 try:
-                    out.append(self._fea(rec, c) if c["kind"] == "fea" else self._te(rec, c))
+                    out.append(self._fea(rec, c) if c["kind"] == "fea" else self._hist(rec, c) if c["kind"] == "hist" else self._te(rec, c))
                 except Exception as e:  # noqa  (a failure of the harness itself, not of the code under test)
                     out.append({"harness_error": f"{type(e).__name__}: {e}", "tb": traceback.format_exc()[-1500:], "calls": [],
                                 "exception": None})
@@ -561,6 +723,23 @@ class C20(Prop):
                 continue
             shape = ob.get("shape_in", c.get("shape", [1]))
             rows, cols = ob.get("hrows", 1), ob.get("hcols", 1)
+            if c["kind"] == "hist":
+                # one model run per call of the history (the model is stateless: a call does not depend on earlier calls)
+                sh = coq_list(shape, coq_nat)
+                parts = []
+                for st, so in zip(c["steps"], ob.get("steps", [])):
+                    ncols = 0
+                    for cl in so.get("calls", []):
+                        if cl["kernel"] == "solve_ivp":
+                            ncols = cl.get("ncols", 0)
+                    common = f"{st['mode']} {coq_bool(st['forward'])} {coq_nat(rows)} {sh} {self._q(st['t'])}"
+                    # (the number of returned columns matters for solve_ivp only; two runs only if it is not the regular 1)
+                    if st["mode"] in ODE and ncols != 1:
+                        parts.append(f"[observe {common} {coq_nat(ncols)}; observe {common} 1%nat]")
+                    else:
+                        parts.append(f"[observe {common} 1%nat]")
+                exprs.append(f"(accepted {coq_nat(rows)} {coq_nat(cols)} {sh}, [{'; '.join(parts)}])")
+                continue
             ncols = 0
             for cl in ob.get("calls", []):
                 if cl["kernel"] == "solve_ivp":
@@ -637,11 +816,27 @@ class C20(Prop):
             if ob["exception"] and not (ob["calls"] and ob["calls"][0]["raised"]):
                 return f"model returns; implementation raised {ob['exception']}"
             return None
+        if case["kind"] == "hist":
+            acc, runs = mo
+            if not acc:
+                return "model rejects the input of a history (harness error)"
+            if len(runs) != len(ob.get("steps", [])):
+                return f"{len(ob.get('steps', []))} calls observed, {len(runs)} in the model"
+            for k, (run, so) in enumerate(zip(runs, ob["steps"])):
+                m_obs, m_one = run[0], run[-1]
+                so2 = dict(so, hrows=ob["hrows"])
+                d = self._compare_te(so2, m_obs, m_one)
+                if d:
+                    return f"call {k + 1} of the history: {d}"
+            return None
         acc, m_obs, m_one = mo
         if not acc:
             if ob["exception"] is None:
                 return "model rejects the input (non-square H or size mismatch); the implementation returned"
             return None
+        return self._compare_te(ob, m_obs, m_one)
+
+    def _compare_te(self, ob, m_obs, m_one):
         if m_one is None:
             return "model: no kernel reachable"
         shape1, entries = m_one[1]
@@ -687,6 +882,26 @@ class C20(Prop):
             if ob["err"] > TOL_EXP:
                 return f"fast_exp_action(mode={md!r}) deviates from exp(exponent) vector: relative error {ob['err']:.3g} > {TOL_EXP:g}"
             return None
+        if case["kind"] == "hist":
+            for k, (st, so) in enumerate(zip(case["steps"], ob["steps"])):
+                mode = st["mode"]
+                tol = TOL_ODE if mode in ODE else TOL_EXP
+                arrow = "exp(-iHt)" if st["forward"] else "exp(+iHt)"
+                where = (f"call {k + 1} of {len(case['steps'])} in one process (mode {mode}, t={st['t']:g}, H given as `{st['h']}` of the caller's "
+                         f"matrix, psi `{st['psi']}`)")
+                if so["exception"]:
+                    return f"{where} raised {so['exception']}"
+                if so.get("shape") != ob["shape_in"]:
+                    return f"{where}: result shape {so.get('shape')} is not psi's shape {ob['shape_in']}"
+                if not (so["err"] <= tol):
+                    return f"{where}: result deviates from {arrow} psi: relative error {so['err']:.3g} > {tol:g}"
+                if so["hermitian"] and not (so["norm_dev"] <= tol):
+                    return f"{where}: norm not preserved for Hermitian H: relative change {so['norm_dev']:.3g} > {tol:g}"
+                if "rt_err" in so:
+                    tol2 = tol + (TOL_ODE if so["rt_mode"] in ODE else TOL_EXP)
+                    if not (so["rt_err"] <= tol2):
+                        return f"{where}: one direction then the other is not the identity: relative error {so['rt_err']:.3g} > {tol2:g}"
+            return None
         mode = case["mode"]
         tol = TOL_ODE if mode in ODE else TOL_EXP
         arrow = "exp(-iHt)" if case["forward"] else "exp(+iHt)"
@@ -706,8 +921,8 @@ class C20(Prop):
 
     def classify(self, case, what, known):
         """Known-finding classes; an id is returned only if the lead lists it in known_findings.json."""
-        if what.startswith("tie:") or case["kind"] == "bad":
-            return None
+        if what.startswith("tie:") or case["kind"] in ("bad", "hist"):
+            return None                                  # histories stay clear of the known-finding classes (EIGSH only below dimension 4)
         numeric = what.startswith(("result deviates", "round trip: one direction", "norm not preserved", "fast_exp_action(mode='eigsh') deviates"))
         kid = None
         if case["kind"] == "fea":
@@ -722,6 +937,46 @@ class C20(Prop):
             elif mode in ODE and t > 0 and case["pdtype"] in ("real", "int") and numeric:
                 kid = KF_REAL
         return kid if (kid is not None and kid in known) else None
+
+    @staticmethod
+    def _fails_in_fresh_process(case):
+        """the oracle's verdict on a history run in a NEW interpreter (what a replay does): state left in this process by
+        earlier cases must not take part in the decision."""
+        import json
+        import os
+        import subprocess
+        import sys
+        here = os.path.dirname(os.path.dirname(os.path.abspath(__file__)))
+        code = ("import sys, json, warnings; warnings.filterwarnings('ignore'); sys.path.insert(0, %r); import lib; lib.setup_repo_import(); "
+                "from props.c20 import C20; p = C20(); case = json.loads(sys.stdin.read()); ob = p.impl(None, [case])[0]; "
+                "print('WHAT:' + json.dumps(p.oracle(case, ob)))" % here)
+        r = subprocess.run([sys.executable, "-c", code], input=json.dumps(case), capture_output=True, text=True, timeout=600,
+                           env=dict(os.environ, PYTHONHASHSEED="0", PYTHONDONTWRITEBYTECODE="1"))
+        for line in r.stdout.splitlines():
+            if line.startswith("WHAT:"):
+                return json.loads(line[5:]) is not None
+        return False
+
+    def shrink(self, ctx, case, pred):
+        """histories: drop calls while the history still fails (each candidate is judged in a fresh interpreter)."""
+        if case.get("kind") != "hist":
+            return case
+        pred = self._fails_in_fresh_process
+        if not pred(case):
+            return case
+        cur = case
+        changed = True
+        while changed and len(cur["steps"]) > 1:
+            changed = False
+            for k in range(len(cur["steps"])):
+                cand = dict(cur, steps=cur["steps"][:k] + cur["steps"][k + 1:])
+                try:
+                    if pred(cand):
+                        cur, changed = cand, True
+                        break
+                except Exception:  # noqa
+                    pass
+        return cur
 
     def sample_repr(self, case):
         return case
